@@ -55,7 +55,24 @@ Fixpoint pop_until (rc : list block) (n_stable : nat) (target : ident) (mid : bo
    descendants). GetCommits = descs ++ [b]; Previous() = the previous of the first commit; Identifier() = the one of b *)
 Definition tx_first (descs : list block) (b : block) : block := match descs with d :: _ => d | [] => b end.
 
-Definition add_tx (force : bool) (a : acct) (descs : list block) (b : block) : acct * result :=
+(* canRollback, after the test against the stable identifier: the block named as previous. The first block of an
+   account (height 1) has no previous block to look up: it must name the zero hash-height, the empty account-chain
+   (fix 417e0a5; before it ByHeight(0) was looked up and every competitor for height 1 was refused "missing previous");
+   any other block must name the block the frontier view has at height - 1. ROk = the rollback may go on *)
+Definition prev_check (rc : list block) (b : block) (prev : ident) : result :=
+  if bheight b =? 1 then (if ident_eqb prev (0, 0) then ROk else RErrPrevMismatch) else
+  match by_height rc (u64 (bheight b - 1)) with
+  | None => RErrNoPrev
+  | Some p => if ident_eqb (id_of p) prev then ROk else RErrPrevMismatch
+  end.
+(* canRollback of the code before fix 417e0a5 *)
+Definition prev_check_old (rc : list block) (b : block) (prev : ident) : result :=
+  match by_height rc (u64 (bheight b - 1)) with
+  | None => RErrNoPrev
+  | Some p => if ident_eqb (id_of p) prev then ROk else RErrPrevMismatch
+  end.
+
+Definition add_tx_with (chk : list block -> block -> ident -> result) (force : bool) (a : acct) (descs : list block) (b : block) : acct * result :=
   let rc := rchain a in
   let prev := prev_of (tx_first descs b) in
   if ident_eqb prev (frontier_id rc) then (mkAcct (b :: rev descs ++ rc) (sh a), ROk)        (* fast-forward *)
@@ -64,23 +81,24 @@ Definition add_tx (force : bool) (a : acct) (descs : list block) (b : block) : a
     | Some t => if ident_eqb (id_of t) (id_of b) then (a, RAlready) else
         (* canRollback *)
         if bheight b <=? stable_height a then (a, RErrOld) else
-        match by_height rc (u64 (bheight b - 1)) with
-        | None => (a, RErrNoPrev)
-        | Some p => if negb (ident_eqb (id_of p) prev) then (a, RErrPrevMismatch) else
+        match chk rc b prev with
+        | ROk =>
             let pr := higher_priority b t in
             if negb force && negb (pr =? 0) then (a, if pr =? 1 then RErrRatio else RErrTieBreak) else
             match pop_until rc (sh a) prev false with
             | None => (mkAcct (confirmed a) (sh a), RErrPop)    (* the manager is left at its stable version *)
             | Some rc' => (mkAcct (b :: rev descs ++ rc') (sh a), ROk)
             end
+        | e => (a, e)
         end
     | None =>
         if bheight b <=? stable_height a then (a, RErrOld) else
-        match by_height rc (u64 (bheight b - 1)) with
-        | None => (a, RErrNoPrev)
-        | Some p => if negb (ident_eqb (id_of p) prev) then (a, RErrPrevMismatch) else (a, RPanic)   (* higherPriority(block, nil) *)
+        match chk rc b prev with
+        | ROk => (a, RPanic)   (* higherPriority(block, nil) *)
+        | e => (a, e)
         end
     end.
+Definition add_tx := add_tx_with prev_check.
 Definition add (force : bool) (a : acct) (b : block) : acct * result := add_tx force a [] b.
 
 (* rebuild of one account after a momentum: new_stable = the new confirmed chain (newest first);
